@@ -15,6 +15,7 @@ import Driver.Faults
 import Driver.Block
 import Driver.C18
 import Driver.CafW64
+import Driver.WavexRf64
 import Driver.Routes
 import Driver.World
 import Driver.Aiff
@@ -80,6 +81,8 @@ def main (args : List String) : IO UInt32 := do
   | "c18" :: rest => C18Driver.main rest
   | "caf" :: rest => CafW64Driver.cafCmd rest
   | "w64" :: rest => CafW64Driver.w64Cmd rest
+  | "wavex" :: rest => WavexRf64Driver.wavexCmd rest
+  | "rf64" :: rest => WavexRf64Driver.rf64Cmd rest
   | "routes" :: rest => RoutesDriver.cmd rest
   | "world" :: rest => WorldDriver.cmd rest
   | "aiff" :: rest => Driver.Aiff.cmd rest
